@@ -297,8 +297,11 @@ pub async fn request_certificate(
 	// Nothing is installed unless the CA returned a certificate, and a new key
 	// pair is written only now: a failed attempt must not leave a private key that
 	// does not match the installed certificate.
-	X509Certificate::from_pem(crt.as_bytes())
+	let chain = X509Certificate::chain_from_pem(crt.as_bytes())
 		.map_err(|e| e.prefix("invalid certificate received"))?;
+	if !chain[0].has_public_key_of(&key_pair)? {
+		return Err("invalid certificate received: not issued for the requested public key".into());
+	}
 	if is_new_key_pair {
 		certificate::store_key_pair(cert, &key_pair).await?;
 	}
